@@ -70,6 +70,14 @@ func init() {
 		"verifrt.ExactDiv":      func(fr *frame, a []value) value { return fr.i.exact(token.QUO, a[0], a[1]) },
 		"verifrt.ExactShl":      func(fr *frame, a []value) value { return fr.i.exact(token.SHL, a[0], a[1]) },
 		"verifrt.ExactMulDiv64": vExactMulDiv64,
+		"verifrt.And":           func(fr *frame, a []value) value { return fr.i.andV(a[0], a[1]) },
+		"verifrt.Or":            func(fr *frame, a []value) value { return fr.i.orV(a[0], a[1]) },
+		"verifrt.Not":           func(fr *frame, a []value) value { return fr.i.notV(a[0]) },
+		"verifrt.Implies":       func(fr *frame, a []value) value { return fr.i.orV(fr.i.notV(a[0]), a[1]) },
+		"verifrt.B2I":           func(fr *frame, a []value) value { return fr.i.iteV(a[0], int(1), int(0)) },
+		"verifrt.IteInt":        func(fr *frame, a []value) value { return fr.i.iteV(a[0], a[1], a[2]) },
+		"verifrt.IteU64":        func(fr *frame, a []value) value { return fr.i.iteV(a[0], a[1], a[2]) },
+		"verifrt.IteByte":       func(fr *frame, a []value) value { return fr.i.iteV(a[0], a[1], a[2]) },
 
 		// ---- fmt / errors
 		"fmt.Errorf":   fmtErrorf,
